@@ -16,7 +16,19 @@ import (
 	"golang.org/x/tools/go/packages"
 )
 
-const repoRoot = "/repo"
+// repoRoot is /repo for every registered check. PVC_ALT_REPO (development only: judging a
+// seeded change on a private copy while other runs use /repo) redirects the engine to
+// another checkout; evidence and replays of such a run go under <copy>/.pvc-out and never
+// into /verif.
+var repoRoot = "/repo"
+var altOut = ""
+
+func init() {
+	if e := os.Getenv("PVC_ALT_REPO"); e != "" {
+		repoRoot = filepath.Clean(e)
+		altOut = filepath.Join(repoRoot, ".pvc-out")
+	}
+}
 const repoModule = "github.com/cockroachdb/pebble"
 
 type CExpr struct {
